@@ -243,6 +243,9 @@ func (w *world) emitWEP(name string) {
 
 // record / unrecord an address in its block (if it lies in an existing block), emitting the block.
 func (w *world) record(ip, owner string) {
+	if ip == "" {
+		return
+	}
 	if b, ord := w.st.blockOf(ip); b != "" && w.st.Blocks[b].Allocs[ord] != owner {
 		w.st.Blocks[b].Allocs[ord] = owner
 		w.emitBlock(b)
@@ -250,7 +253,7 @@ func (w *world) record(ip, owner string) {
 }
 
 func (w *world) unrecord(ip string) {
-	if w.st.inUse(ip) {
+	if ip == "" || w.st.inUse(ip) {
 		return
 	}
 	if b, ord := w.st.blockOf(ip); b != "" {
@@ -339,6 +342,12 @@ func (w *world) mutate() {
 		if nu != "" {
 			if b, _ := st.blockOf(nu); b != "" && netip.MustParsePrefix(b).Bits() == 32 && st.Blocks[b].Host != n {
 				return // a dedicated /32 tunnel block is used by its own node only
+			} else if b == "" {
+				for _, cand := range blockCands {
+					if netip.MustParsePrefix(cand).Contains(netip.MustParseAddr(nu)) {
+						return // IPAM hands out addresses from existing blocks only
+					}
+				}
 			}
 			w.record(nu, n) // IPAM first
 		}
@@ -1030,17 +1039,65 @@ func relevant(r *proto.RouteUpdate) string {
 var newSink func(c *harness.Case, s *state) dpSink               // set by part 2
 var checkSink func(c *harness.Case, s *state, k dpSink) *verdict // set by part 2
 
+// snapshot: the final state delivered once, as a start-of-day list of every kind.
+func (w *world) snapshot() []upd {
+	var out []upd
+	for _, k := range sortedKeysB(w.st.Pools) {
+		cp := *w.st.Pools[k]
+		out = append(out, upd{Kind: "pool", Key: k, Val: &cp})
+	}
+	for _, k := range sortedKeysB(w.st.Nodes) {
+		cp := *w.st.Nodes[k]
+		out = append(out, upd{Kind: "node", Key: k, Val: &cp})
+	}
+	for _, k := range sortedKeysB(w.st.Blocks) {
+		out = append(out, upd{Kind: "block", Key: k, Val: cloneBlock(w.st.Blocks[k])})
+	}
+	for _, k := range sortedKeysB(w.st.WEPs) {
+		out = append(out, upd{Kind: "wep", Key: k, Val: &wepV{IPs: append([]string{}, w.st.WEPs[k].IPs...)}})
+	}
+	return out
+}
+
+// nestedInBlockCand: dst is a single address strictly inside one of the block CIDRs of the universe.
+func nestedInBlockCand(dst string) bool {
+	d := netip.MustParsePrefix(dst)
+	if d.Bits() != 32 {
+		return false
+	}
+	for _, b := range blockCands {
+		p := netip.MustParsePrefix(b)
+		if p.Bits() < 32 && p.Contains(d.Addr()) {
+			return true
+		}
+	}
+	return false
+}
+
+// onlyBlockDerived: two routes differ only in what the L3 resolver derives from the COVERING block
+// of a nested address (the workload type bits contributed by the parent block and the borrowed flag).
+func onlyBlockDerived(a, b *proto.RouteUpdate) bool {
+	if a == nil || b == nil {
+		return false
+	}
+	mask := ^(proto.RouteType_LOCAL_WORKLOAD | proto.RouteType_REMOTE_WORKLOAD)
+	return a.Types&mask == b.Types&mask && a.IpPoolType == b.IpPoolType && a.DstNodeName == b.DstNodeName &&
+		a.DstNodeIp == b.DstNodeIp && a.SameSubnet == b.SameSubnet && a.LocalWorkload == b.LocalWorkload
+}
+
 func run(c *harness.Case) {
 	w := genTrueHistory(c)
 	fin := w.st
 	h1 := w.delivery(c)
 	h2 := w.delivery(c)
+	h3 := w.snapshot()
 	detail := map[string]any{"final": fin, "history1": h1, "history2": h2}
 	c.Count("true_history_mutations", int64(w.nMut))
 
-	var sinks [2]dpSink
-	var pipes [2]*pipeline
-	for i, h := range [][]upd{h1, h2} {
+	// pipeline 0 and 1: two legitimate views of the history; pipeline 2: the final state only.
+	var sinks [3]dpSink
+	var pipes [3]*pipeline
+	for i, h := range [][]upd{h1, h2, h3} {
 		if newSink != nil {
 			sinks[i] = newSink(c, fin)
 		}
@@ -1050,44 +1107,56 @@ func run(c *harness.Case) {
 		c.Count("route_updates_seen", pipes[i].nUpd)
 		c.Count("route_removes_seen", pipes[i].nRem)
 	}
-	for i, p := range pipes {
-		if v := fin.checkRoutes(c, p.routes); v != nil {
+	name := []string{"history 1", "history 2", "final-state snapshot"}
+	// The snapshot run is judged by the oracle first: it has no history to depend on.
+	if v := fin.checkRoutes(c, pipes[2].routes); v != nil {
+		detail["history_judged"] = 3
+		c.Violationf(v.key, detail, "%s: %s", name[2], v.msg)
+		return
+	}
+	// Order independence, on the fields the statement fixes: each history against the snapshot.
+	for i := 0; i < 2; i++ {
+		keys := map[string]bool{}
+		for k := range pipes[i].routes {
+			keys[k] = true
+		}
+		for k := range pipes[2].routes {
+			keys[k] = true
+		}
+		for _, k := range sortedKeysB(keys) {
+			a, b := pipes[i].routes[k], pipes[2].routes[k]
+			c.Count("order_comparisons", 1)
+			if relevant(a) != relevant(b) {
+				detail["history_judged"] = i + 1
+				key := "order-dependent-route"
+				if nestedInBlockCand(k) && onlyBlockDerived(a, b) {
+					key = "nested-route-not-refreshed-on-block-change"
+				}
+				c.Violationf(key, detail, "%s: route %s differs from what the same final datastore state yields when delivered on its own: [%s] vs [%s]", name[i], k, relevant(a), relevant(b))
+				return
+			}
+			if a != nil && b != nil && !googleproto.Equal(a, b) {
+				c.Count("aux_field_order_differences", 1)
+			}
+		}
+		if v := fin.checkRoutes(c, pipes[i].routes); v != nil {
 			detail["history_judged"] = i + 1
-			c.Violationf(v.key, detail, "history %d: %s", i+1, v.msg)
+			c.Violationf(v.key, detail, "%s: %s", name[i], v.msg)
 			return
-		}
-	}
-	// order independence on the fields the statement fixes
-	keys := map[string]bool{}
-	for k := range pipes[0].routes {
-		keys[k] = true
-	}
-	for k := range pipes[1].routes {
-		keys[k] = true
-	}
-	for _, k := range sortedKeysB(keys) {
-		a, b := pipes[0].routes[k], pipes[1].routes[k]
-		c.Count("order_comparisons", 1)
-		if relevant(a) != relevant(b) {
-			c.Violationf("order-dependent-route", detail, "route %s differs between two delivery orders of the same final state: [%s] vs [%s]", k, relevant(a), relevant(b))
-			return
-		}
-		if a != nil && b != nil && !googleproto.Equal(a, b) {
-			c.Count("aux_field_order_differences", 1)
 		}
 	}
 	if checkSink != nil {
 		for i := range sinks {
 			if v := checkSink(c, fin, sinks[i]); v != nil {
 				detail["history_judged"] = i + 1
-				c.Violationf(v.key, detail, "history %d: %s", i+1, v.msg)
+				c.Violationf(v.key, detail, "%s: %s", name[i], v.msg)
 				return
 			}
 		}
 	}
 	nt := len(fin.remoteTargets())
 	if nt > 0 && len(fin.Pools) > 0 {
-		c.NonTrivial(fmt.Sprintf("%+v", detail["final"]), len(h1), len(h2), fmt.Sprintf("%v", h1))
+		c.NonTrivial(fmt.Sprintf("%v", h1), fmt.Sprintf("%v", h2))
 	}
 	c.Distinct("final_states", fmt.Sprintf("%v|%v|%v|%v", sortedKeysB(fin.Pools), sortedKeysB(fin.Nodes), sortedKeysB(fin.Blocks), sortedKeysB(fin.WEPs)))
 	if c.Index < 4 {
